@@ -49,9 +49,15 @@ def run(ctx):
         "shape). About the tree BEFORE F30: output_on_negotiated_transport_false / second_identify_leaks_cleartext (witness; finding "
         "second-identify-cleartext, listed fixed, replayed on every run) and output_on_negotiated_transport_partial (hypothesis "
         "NoRebufferAfterUpgrade); upgrade_loses_nothing speaks about the F30 tree (fixed_tree_is_round6_model)",
-        "writer-stack model: an upgrade installs a clean new stack (with F30 also snappy negotiated by a later IDENTIFY after "
-        "deflate: finding snappy-after-deflate-garbled, listed fixed, oracle-only replay on every run); the server's "
-        "read side after a second upgrade is not modelled",
+        "writer-stack model: an upgrade installs a clean new stack; Model.WireStack.kstep also carries the KIND of every upgrade, "
+        "c.tlsConn and c.flateWriter (which Flush flushes whatever stack is current). The tree is Tie.WireStack.tree (tree_known: "
+        "/repo d6aa4e3 or d6aa4e3 + F30b). On d6aa4e3 the clause WITH the markers is false (output_on_negotiated_transport_k_false: "
+        "IDENTIFY{deflate} then IDENTIFY{tls_v1}; open finding tls-after-deflate-garbled, replayed on every run) and holds under "
+        "NoTlsAfterDeflate (_k_partial); with F30b it holds for every action sequence (output_on_negotiated_transport_k). The "
+        "theorems above about 'every output byte' (this_tree_full) speak about FRAME bytes",
+        "the server's read side after a second upgrade is not modelled: bytes still buffered in a replaced reader can only be bytes "
+        "the client sent BEFORE it had the IDENTIFY response (docs/C07.md, round 11), which the protocol forbids after a "
+        "stack-changing IDENTIFY; a client that leaves deflate must skip sync markers of unsolicited flushes (harness does)",
     ]
     ctx.rule = ("codec: generated envelopes (every timestamp class incl. negative / extreme, attempts 0/255/256/65535/"
                 "random, ids, bodies of size 0..max+1 around 26/64/4096/16384 with classes random, all-zero, "
@@ -131,6 +137,17 @@ def stack_tree_fixed():
     return "bufio.NewWriterSize(c.outputDest, c.OutputBufferSize)" in txt
 
 
+def stack_tree_f30b():
+    """Does the regenerated UpgradeTLS drop c.flateWriter (fix F30b)? (Nsq.Tie.WireStack.tree.tlsClears, read off the text)"""
+    from framework import LEAN
+    try:
+        txt = open(os.path.join(LEAN, "Nsq", "Gen", "WireStack.lean")).read()
+    except OSError:
+        return None
+    m = re.search(r"def upgradeTLSWriter : List String := \[(.*?)\]", txt, re.S)
+    return bool(m) and '"assign c.flateWriter = nil"' in m.group(1)
+
+
 def run_stack(ctx, corr_broken):
     """Writer-stack leg (Model.WireStack): white-box correspondence `stack` + network double-IDENTIFY oracle.
     F30 is committed: a tree with the unfixed shape breaks Tie.WireStack AND reproduces `second-identify-cleartext` (listed
@@ -147,8 +164,15 @@ def run_stack(ctx, corr_broken):
         corr_broken.append("Tie.WireStack.treeFixed is not `true`: SetOutputBuffer no longer builds the writer on c.outputDest (F30)")
     known = os.path.join(os.path.dirname(os.path.dirname(os.path.abspath(__file__))), "corpus", "C07", "fixed",
                          "second_identify.stack")
+    # fix review of F30: TLS negotiated after deflate. OPEN known finding on /repo d6aa4e3 (UpgradeTLS leaves c.flateWriter),
+    # repaired by fixes/F30b; a tree that HAS the F30b shape and still reproduces it is a VIOLATION (key suffix)
+    f30b = stack_tree_f30b()
+    tad_key = "tls-after-deflate-garbled" + (":tree-has-F30b" if f30b else "")
+    tad_replay = os.path.join(os.path.dirname(os.path.dirname(known)), "known", "tls_after_deflate.stack")
+    tad_reproduced = False
     ok, ops, impl, out = e1util.run_corr(ctx, sbin, "TestVerifStackCorr", "stack", ctx.budget(600, 6000),
-                                         {"VERIF_CORPUS": known, "VERIF_STACK_DS": "1" if fixed else "0",
+                                         {"VERIF_CORPUS": known + ":" + tad_replay, "VERIF_STACK_DS": "1" if fixed else "0",
+                                          "VERIF_REPO": REPO,
                                           "VERIF_STACK_ORACLE_ONLY": os.path.join(os.path.dirname(known), "snappy_after_deflate.stackx")},
                                          timeout=ctx.budget(300, 900))
     if not ok:
@@ -167,14 +191,17 @@ def run_stack(ctx, corr_broken):
                 reproduced = True
             elif wk == "snappy-after-deflate-garbled":
                 k = wk
+            elif wk == "tls-after-deflate-garbled":
+                k = tad_key
+                tad_reproduced = True
             else:
                 k = "stack:" + wk
             ctx.violation(k, l[:700], "TestVerifStackCorr (white-box), seed %s; first failing lines:\n%s\n"
-                          "replay: corpus/C07/fixed/second_identify.stack through VERIF_CORPUS\n"
-                          % (ctx.seed, "\n".join(fails[:5])))
+                          "replay: corpus/C07/fixed/second_identify.stack, corpus/C07/known/tls_after_deflate.stack through VERIF_CORPUS\n"
+                          % (ctx.seed, "\n".join([x for x in fails if wk in x][:5])))
         model = e1util.model_of(ctx, "stack")
         for o, i in zip(ops, impl):
-            ctx.count_case(o, nontrivial="garbled" not in i)
+            ctx.count_case(o, nontrivial="garbled" not in i and "dead" not in i)
         for idx, a, b in ctx.diff_lines(impl, model, "stack"):
             ctx.log("model/impl disagree on `%s`: impl=%s model=%s" % (ops[idx][:200], a[:200], b[:200]))
             corr_broken.append("correspondence stack: %s" % ops[idx][:160])
@@ -188,6 +215,11 @@ def run_stack(ctx, corr_broken):
         if k == "harness":
             continue
         reproduced = reproduced or k == "second-identify-cleartext"
+        if k == "tls-after-deflate-garbled":
+            tad_reproduced = True
+            ctx.violation(tad_key, l[:700], "TestVerifReidentify (network), seed %s\n%s\n"
+                          % (ctx.seed, "\n".join([x for x in fails if "key=tls-after-deflate-garbled" in x][:8])))
+            continue
         ctx.violation(key if k == "second-identify-cleartext" else "reident:" + k, l[:700],
                       "TestVerifReidentify (network), seed %s\n%s\n" % (ctx.seed, "\n".join(fails[:8])))
     if not okl or any("key=harness" in l for l in fails):
@@ -196,8 +228,12 @@ def run_stack(ctx, corr_broken):
     else:
         m = re.search(r"cases=(\d+) failed=(\d+)", okl[0])
         ctx.evaluations += int(m.group(1))
-        ctx.corr["reidentify"] = {"summary": okl[0], "tree_has_F30": bool(fixed),
+        ctx.corr["reidentify"] = {"summary": okl[0], "tree_has_F30": bool(fixed), "tree_has_F30b": bool(f30b),
+                                  "notes": [l for l in out.splitlines() if l.startswith("REIDENT-NOTE")][:10],
                                   "cases": [l for l in out.splitlines() if l.startswith("REIDENT-")][:80]}
+    if f30b is False and not tad_reproduced and ok and okl:
+        ctx.log("UpgradeTLS has the d6aa4e3 shape (c.flateWriter kept) but the tls-after-deflate replay did not reproduce")
+        corr_broken.append("tie says UpgradeTLS keeps c.flateWriter, replay corpus/C07/known/tls_after_deflate.stack does not reproduce the finding")
     if fixed is False and not reproduced and ok and okl:
         ctx.log("the tree has the unfixed SetOutputBuffer shape but the second-IDENTIFY replay did not reproduce")
         corr_broken.append("tie says unfixed SetOutputBuffer, replay does not reproduce the cleartext writer")
